@@ -815,6 +815,13 @@ class PseudoNetCDFFile(PseudoNetCDFSelfReg, object):
         else:
             outf = self.copy()
 
+        # renaming a dimension to its own name is a no-op
+        newkeys = {ok: nk for ok, nk in newkeys.items() if ok != nk}
+        for oldkey, newkey in newkeys.items():
+            if newkey in outf.dimensions:
+                raise ValueError(
+                    'Cannot rename dimension %s to %s; %s already exists' %
+                    (oldkey, newkey, newkey))
         for oldkey, newkey in newkeys.items():
             outf.dimensions[newkey] = outf.dimensions[oldkey]
 
